@@ -148,9 +148,21 @@ func (v *volume) write(b int, val int64) error {
 	return err
 }
 
+// tryLock takes the controller lock if it becomes free within d; the controller holds it for as long as a start
+// request polls a clone that never completes, and a scenario must not hang on that
+func (v *volume) tryLock(d time.Duration) bool {
+	for dl := time.Now().Add(d); time.Now().Before(dl); time.Sleep(10 * time.Millisecond) {
+		if v.c.TryLock() {
+			return true
+		}
+	}
+	return false
+}
+
 func (v *volume) rwCount() (int, int) {
-	v.c.Lock()
-	defer v.c.Unlock()
+	if v.tryLock(2 * time.Second) {
+		defer v.c.Unlock()
+	}
 	rw := 0
 	for _, r := range v.c.ListReplicas() {
 		if r.Mode == types.RW {
@@ -479,10 +491,12 @@ func (w *world) step(s Step) StepOut {
 		// every RW replica of the volume: same live image, same snapshot images, same counter, same checkpoint;
 		// the live image holds every acknowledged write
 		v := w.vols[s.Vol]
-		v.c.Lock()
+		locked := v.tryLock(5 * time.Second)
 		reps := append([]types.Replica{}, v.c.ListReplicas()...)
 		cp := v.c.Checkpoint
-		v.c.Unlock()
+		if locked {
+			v.c.Unlock()
+		}
 		imgs := map[string]*dirImage{}
 		var first *dirImage
 		var firstVals map[string][]int64
